@@ -322,14 +322,22 @@ def run_structure_case(case, g, tier, res, on_path):
             c.assume(params[0] > params[1])
         if T["dist"] == "flory_schulz":
             c.assume(params[0] < 1)
-        wts = [c.fresh_real(f"w{i}", 0, 1e6) for i in range(len(T["rus"]))]
+        # number-format variant of the weights: canonical float print, or an integer literal with a trailing dot ('2.')
+        tdot = c.fresh_bool("trailing_dot_weights")
+        if tdot:
+            wts = [c.fresh_int(f"w{i}", 0, 10**6) for i in range(len(T["rus"]))]
+        else:
+            wts = [c.fresh_real(f"w{i}", 0, 1e6) for i in range(len(T["rus"]))]
         parts = [T["prefix"], "{", "[" + T["lt"] + "]", blanks("b0")]
         for i, ru in enumerate(T["rus"]):
             if i:
                 parts += [",", blanks(f"bs{i}")]
             # weight on the last descriptor of each repeat unit
             k = ru.rfind("]")
-            parts += [ru[:k], "|", Num(wts[i], "float"), "|", ru[k:]]
+            if tdot:
+                parts += [ru[:k], "|", Num(wts[i], "int"), ".", "|", ru[k:]]
+            else:
+                parts += [ru[:k], "|", Num(wts[i], "float"), "|", ru[k:]]
         if T["egs"]:
             parts += [blanks("b1"), ";", blanks("b2")]
             parts.append((", ").join(T["egs"]))
@@ -356,7 +364,15 @@ def run_structure_case(case, g, tier, res, on_path):
                 return (f"C02:structure:{label}", f"Molecule({t!r}): {label}", {"kind": "structure", "text": t, "label": label, "template": case["i"]})
             return build
 
-        mol = g.Molecule(text)
+        try:
+            mol = g.Molecule(text)
+        except Exception as e:
+            core.reraise_if_harness(e)
+            if tdot:
+                c.prove(False, "valid notation accepted", detail("a weight written with a trailing dot ('2.') makes the molecule unparseable"))
+            else:
+                c.prove(False, "valid notation accepted", detail("a valid molecule is rejected"))
+            return "rejected"
         els = mol._elements
         kinds = [type(e).__name__ for e in els]
         exp = (["SmilesToken"] if T["prefix"] else []) + ["Stochastic"] + (["SmilesToken"] if T["suffix"] else [])
@@ -477,7 +493,10 @@ def replay(rp, gb):
         return bool(bad), f"{t}: {bad}"
     if rp["kind"] == "structure":
         T = TEMPLATES[rp["template"]]
-        mol = gb.Molecule(rp["text"])
+        try:
+            mol = gb.Molecule(rp["text"])
+        except Exception as e:
+            return "rejected" in rp["label"] or "unparseable" in rp["label"], f"{rp['text']} rejected: {type(e).__name__}: {e}"
         els = mol._elements
         st = [e for e in els if type(e).__name__ == "Stochastic"]
         bad = []
